@@ -162,3 +162,6 @@ def nontrivial(line):
 
 def classify(line, what):
     return "c08-" + line.split()[2].lower()
+
+
+norm_model = norm_impl
